@@ -86,7 +86,7 @@ def _repeats(run, exe, flags, hx):
 
 def _record_loads(run, exe, args, out, what, max_crashes=3, env=None, timeout=1800):
     """Run h_load with crash-resume. Appends the trace to `out`. Returns number of crashes reported."""
-    skip, crashes = -1, 0
+    skip, crashes, nonrep = -1, 0, 0
     stats = {"inputs": 0, "executed": 0, "emitted": 0, "shape_failures": 0}
     while True:
         part = out + ".part"
@@ -111,12 +111,15 @@ def _record_loads(run, exe, args, out, what, max_crashes=3, env=None, timeout=18
         mc = _re_cur.findall(err)
         if mc:
             why, idx, hx = mc[-1]
+            if int(idx) <= skip:
+                raise Infra("h_load ended abnormally twice at the same input index %s (%s): %s" % (idx, why, err[-1500:]))
             skip = int(idx)
             # report only what repeats when the single input is run again in isolation (same flags)
             if len(hx) < 1190 and not _repeats(run, exe, [x for x in args if x.startswith("--") and x not in ("--skip",)], hx):
                 run.notes.append("abnormal end (%s) on input %s did not repeat in isolation: not reported" % (why, hx[:80]))
                 crashes -= 1
-                if crashes < -20:
+                nonrep += 1
+                if nonrep > 20:
                     raise Infra("too many non-repeating abnormal ends: " + err[-800:])
                 continue
             report_violation(run, "load-crash hex=%s" % hx[:200],
@@ -451,7 +454,7 @@ def C03(run):
 def C07(run):
     q = run.quick()
     mc = tlc_mc(run, "MC_RoundTrip", workers=NCPU)
-    mc, res, out, n, cases, shapes, nontriv = _ser_check(run, "C07", ["--sern"], [("api", 700 if q else 12000), ("dec", 500 if q else 12000)], "size / serialize / serialize_alloc agreement", mc)
+    mc, res, out, n, cases, shapes, nontriv = _ser_check(run, "C07", ["--sern", "--wildhalf"], [("api", 700 if q else 12000), ("dec", 500 if q else 12000)], "size / serialize / serialize_alloc agreement", mc)
     lib = build_lib(run, "dbg")
     exe = build_harness(run, lib, "h_enc", ["vh.c", "h_enc.c"])
     eout = run.path("encn.ndjson")
@@ -496,7 +499,7 @@ def C10(run):
 def C11(run):
     q = run.quick()
     mc = tlc_mc(run, "MC_RoundTrip", workers=NCPU)
-    mc, res, out, n, cases, shapes, nontriv = _ser_check(run, "C11", ["--copy"], [("api", 2500 if q else 40000), ("dec", 1500 if q else 30000)], "cbor_copy", mc)
+    mc, res, out, n, cases, shapes, nontriv = _ser_check(run, "C11", ["--copy", "--wildhalf"], [("api", 2500 if q else 40000), ("dec", 1500 if q else 30000)], "cbor_copy", mc)
     write_evidence(run, "model_checking", {
         "states": mc["distinct"], "transitions": mc["generated"], "traces_validated_against_impl": cases - len(res["rejects"]),
         "samples": _sample_lines(out, 1, lambda l: '"copy"' in l and '"nc":2' in l), "evaluations": cases, "distinct_nontrivial": nontriv, "distinct_shapes": shapes,
